@@ -226,7 +226,7 @@ fn alphabet(ext: bool) -> TreeAlphabet {
         doms: if ext { s(&["d", "e"]) } else { vec![] },
         un: vec![Un::Not, Un::AX],
         bi: vec![Bi::And, Bi::EU],
-        quant: vec![Hy::Bind, Hy::Exists],
+        quant: vec![Hy::Bind, Hy::Forall],
         jump: true,
     }
 }
@@ -238,6 +238,7 @@ pub fn run(tier: &str) -> Result<Report, String> {
     let props = vec!["a".to_string()];
     let mut subs: BTreeSet<T> = BTreeSet::new();
     let mut formulas: Vec<T> = vec![];
+    let mut deep_marking: Vec<T> = vec![];
     for ext in [false, true] {
         let mut g = TreeGen::new(alphabet(ext));
         let top = if ext { s_max.min(4) } else { s_max };
@@ -270,6 +271,9 @@ pub fn run(tier: &str) -> Result<Report, String> {
         rep.set("template_formulae", json!(deep.len() - n_deep));
         for f in &deep {
             let t = T::from_lib(&f.to_tree(&nm));
+            if f.size() >= 6 {
+                deep_marking.push(t.clone());
+            }
             let mut v = vec![];
             t.subtrees(&mut v);
             for s in v {
@@ -353,6 +357,14 @@ pub fn run(tier: &str) -> Result<Report, String> {
         .collect();
     rep.evaluations += formulas.len() as u64;
     rep.violations.extend(single_bad.into_iter().take(50));
+    // marking of every larger template / tiny-alphabet formula (they contain duplicates by construction)
+    let deep_bad: Vec<Violation> = deep_marking
+        .par_iter()
+        .filter_map(|t| check_marking(std::slice::from_ref(t)).map(|w| Violation { case: json!({"kind": "canon", "list": [t]}), what: format!("marking of [{}]: {w}", t.render()), size: t.size() }))
+        .collect();
+    rep.evaluations += deep_marking.len() as u64;
+    rep.set("marking_of_template_and_deep_formulae", json!(deep_marking.len()));
+    rep.violations.extend(deep_bad.into_iter().take(40));
     let nm = Names::user(&["a".to_string(), "b".to_string()]);
     let mut pool: Vec<T> = collision_alphabet(&nm)
         .iter()
@@ -365,13 +377,16 @@ pub fn run(tier: &str) -> Result<Report, String> {
         "3{x}: (@{x}: %p% & AX {x}) | (!{y} in %d%: %p% & AX {y})",
         "!{x}: 3{y} in %d%: (AX {x}) & (@{y}: AX {y}) & (!{z} in %d%: AX {z})",
         "(!{x}: AX (AX {x})) & (!{y} in %d%: AX (AX {y})) & (!{z}: AX (AX {z}))",
+        "(V{x} in %d%: AG EF {x}) & AX (V{x} in %e%: AG EF {x})",
+        "V{x}: (AX {x} & EX (AX {x}))",
+        "(V{x}: AX (EX {x})) | (!{y}: AX (EX {y})) | (V{z} in %d%: AX (EX {z}))",
     ] {
         pool.push(rp::parse_str(s, true).unwrap().minimized(&mut vec![]));
     }
     if tier == "quick" {
         pool.truncate(14);
         pool.extend(
-            ["!{x} in %d%: ((@{x}: AX {x}) & (!{y}: (a & AX {y})))", "!{x} in %d%: !{y} in %e%: ((@{x}: AX {x}) & (@{y}: AX {y}))"]
+            ["!{x} in %d%: ((@{x}: AX {x}) & (!{y}: (a & AX {y})))", "!{x} in %d%: !{y} in %e%: ((@{x}: AX {x}) & (@{y}: AX {y}))", "(V{x} in %d%: AG EF {x}) & AX (V{x} in %e%: AG EF {x})", "V{x}: (AX {x} & EX (AX {x}))"]
                 .iter()
                 .map(|s| rp::parse_str(s, true).unwrap().minimized(&mut vec![])),
         );
